@@ -258,7 +258,7 @@ pub fn check_server_project(ctx: &Ctx, case: u64, schema_files: &[String], via_c
 
 pub fn run(ctx: &Ctx, rep: &mut Report) {
     // part A: round trips of arbitrary parsed documents
-    let n = ctx.budget(40_000, 1_500_000);
+    let n = ctx.budget(120_000, 3_000_000);
     for case in 0..n {
         let mut rng = ctx.rng("roundtrip", case);
         crate::gen_syntax::set_allow_quotes(rng.chance(1, 8));
@@ -285,7 +285,7 @@ pub fn run(ctx: &Ctx, rep: &mut Report) {
         }
     }
     // part B: server schema of valid schemas with hostile descriptions / default strings
-    let n = ctx.budget(8_000, 200_000);
+    let n = ctx.budget(24_000, 400_000);
     let cli_every = 40;
     for case in 0..n {
         let mut rng = ctx.rng("server", case);
